@@ -150,6 +150,28 @@ def run_merge(item):
             fails.append({"what": "merged transform", "bad": bad2 or bad, "shape": list(T.shape)})
     except Exception as e:  # noqa
         fails.append({"what": "merged transform raised", "exc": type(e).__name__ + ": " + str(e)[:200]})
+    # "all pairs of fitted unigram models": an operand of one sum is still a fitted model afterwards - sum it again with a third
+    # model, on either side, and compare with a fit on the concatenation; its own transform must not have changed either
+    try:
+        E = [list(reversed(d)) + [UNSEEN] for d in B] + [["q", "q"]]
+        e = NgramVectorizer().fit(E)
+        before = mat_cells(NgramVectorizer().fit(A).transform(Y), {v: k for k, v in NgramVectorizer().fit(A).column_label_dictionary_.items()})
+        for nm, left, right, docs_ in (("a + e after a + b", a, e, A + E), ("e + a after a + b", e, a, E + A)):
+            d2 = left + right
+            r2 = NgramVectorizer().fit(docs_)
+            i_d = {v: k for k, v in d2.column_label_dictionary_.items()}
+            i_r = {v: k for k, v in r2.column_label_dictionary_.items()}
+            if set(d2.column_label_dictionary_) != set(r2.column_label_dictionary_):
+                fails.append({"what": nm + ": columns", "got": sorted(map(str, d2.column_label_dictionary_)), "expected": sorted(map(str, r2.column_label_dictionary_))})
+            elif diff(mat_cells(r2._train_matrix, i_r), mat_cells(d2._train_matrix, i_d)) or d2._train_matrix.shape != r2._train_matrix.shape:
+                fails.append({"what": nm + ": training matrix"})
+            elif diff(mat_cells(r2.transform(Y), i_r), mat_cells(d2.transform(Y), i_d)):
+                fails.append({"what": nm + ": transform"})
+        after = mat_cells(a.transform(Y), {v: k for k, v in a.column_label_dictionary_.items()})
+        if a.transform(Y).shape[1] != len(NgramVectorizer().fit(A).column_label_dictionary_) or diff(before, after):
+            fails.append({"what": "an operand of '+' no longer transforms as before"})
+    except Exception as ex:  # noqa
+        fails.append({"what": "re-used operand raised", "exc": type(ex).__name__ + ": " + str(ex)[:200]})
     return {"ok": not fails, "fails": fails}
 
 
